@@ -128,9 +128,14 @@ package main
 
 // The flag variables are initialised at package initialisation (flag.Bool / flag.String return non-nil).
 //@ func main() ()
-//@ assigns prefixesFrozen, fs, foff, handledBy, synced, renamedUnsaved, any ast.CallExpr.Fun, any derive.finder.undefined, any derive.finder.derived, any derive.finder.funcNames, any derive.printer.hasContent, any derive.printer.indent, any derive.printer.w, any derive.printer.imports, any derive.typesMap.generated, any derive.typesMap.funcToTyps, any derive.typesMap.typss
+//@ assigns runFailed, prefixesFrozen, fs, foff, handledBy, synced, renamedUnsaved, any ast.CallExpr.Fun, any derive.finder.undefined, any derive.finder.derived, any derive.finder.funcNames, any derive.printer.hasContent, any derive.printer.indent, any derive.printer.w, any derive.printer.imports, any derive.typesMap.generated, any derive.typesMap.funcToTyps, any derive.typesMap.typss
 //@ requires autoname != nil && dedup != nil && prefix != nil && pluginprefix != nil
 //@ requires [fresh-process] !prefixesFrozen && !renamedUnsaved
+// C09: a failure of loading or generating reaches the exit status: main returns normally (exit 0) only when neither failed
+//@ requires [no-failure-yet] !runFailed
+//@ ghost-after-call derive.Plugins.Load: runFailed = runFailed || $ret1 != nil
+//@ ghost-after-call derive.Program.Generate: runFailed = runFailed || $ret0 != nil
+//@ ensures [failure-reaches-exit-status] !runFailed
 //@ ensures [user-files-intact] (!old(*autoname) && !old(*dedup)) ==> forall q string :: !isDerivedFile(q) ==> ((q in fs) <==> (q in old(fs))) && fs[q] == old(fs)[q]
 // C12: the prefix a plugin gets is the -pluginprefix override as given, otherwise its default prefix with "derive" replaced by -prefix
 //@ assert-at-call derive.Plugin.SetPrefix: [prefix-as-configured] (derive.Plugin.Name(p) in overridePrefixes ==> $arg0 == overridePrefixes[derive.Plugin.Name(p)]) && (!(derive.Plugin.Name(p) in overridePrefixes) ==> $arg0 == strings.Replace(derive.Plugin.GetPrefix(p), "derive", *prefix, 1))
